@@ -1683,6 +1683,9 @@ pub unsafe fn abi_entry_light<T: AbiExportable + ?Sized>(flag: AbiProtocol) {
                     let temp;
                     if let Some(err) = err.downcast_ref::<&str>() {
                         msg = err;
+                    } else if let Some(err) = err.downcast_ref::<String>() {
+                        // panic!("... {}", x) carries a String
+                        msg = err;
                     } else {
                         temp = format!("{:?}", err);
                         msg = &temp;
@@ -1785,6 +1788,9 @@ pub unsafe fn abi_entry<T: AbiExportableImplementation>(flag: AbiProtocol) {
                     let msg: &str;
                     let temp;
                     if let Some(err) = err.downcast_ref::<&str>() {
+                        msg = err;
+                    } else if let Some(err) = err.downcast_ref::<String>() {
+                        // panic!("... {}", x) carries a String
                         msg = err;
                     } else {
                         temp = format!("{:?}", err);
